@@ -335,7 +335,7 @@ def check_emitted(ctx, what, frames, sources, replay_cases=None):
 
 
 def run(ctx):
-    ctx.translate(['Consts.v', 'RtuLengths.v'])
+    ctx.translate(['Consts.v', 'RtuLengths.v', 'ParserShape.v'])
     models_ok = ctx.build_models(['Base.Show', 'Base.Frame', 'Model.Reader', 'Spec.Framing', 'Model.FramingEval'])
     ctx.prove()
     if ctx.tier == 'thorough':
